@@ -25,7 +25,8 @@ def spellings(alg):
     return sorted(out)
 
 
-BAD_ALGOS = ["sha999", "md4", "sha3-256x", "", " ", "sha 256", "SHA3_2_56", "ſha256", "blake2", "sha2567"]
+BAD_ALGOS = ["sha999", "md4", "sha3-256x", "", " ", "sha 256", "SHA3_2_56", "ſha256", "blake2", "sha2567",
+             "sha", "sha3", "sha3_", "md", "256", "3_2", "a1", "5, sha1"]      # fragments of supported names
 
 
 class Universe:
@@ -38,6 +39,8 @@ class Universe:
         self.pids = pids or ["p", "pq", "P", "q", "p/../x"]
         cb = content_bytes if content_bytes is not None else [b"", b"a", b"hello world", b"x" * 8192, b"y" * 20000]
         self.toks = [contents.add(b) for b in cb]
+        # zero-padded contents: a tail of whole read buffers of NUL bytes, a single NUL, nothing but NULs
+        self.zero_tail = [contents.add(b) for b in (b"\0", b"data then padding" * 100 + b"\0" * 16384, b"\0" * 8192)]
         self.formats = formats if formats is not None else [None, ns, "f1", "f2", "", "a b", " f1", "f2\n"]
         never = contents.add(b"never stored content")
         self.never_cid = contents.digest(never, self.alg)
@@ -200,7 +203,8 @@ class Universe:
         return self.bad_call()
 
     def bad_sarg(self):
-        return self.rng.choice([None, "", " ", "a b", "x\ty", "\n", "a b", OTHER])
+        return self.rng.choice([None, "", " ", "a b", "x\ty", "\n", "a b", OTHER,
+                                "p\r", "\x0cq", "a\x0bb", "a\x85b", "x\xa0", "\u2028p", "p\x1c", "q\u3000"])   # every kind of white space
 
     def bad_call(self):
         """one (sometimes two) invalid parameters"""
@@ -209,7 +213,7 @@ class Universe:
                         "rmeta", "dmeta", "hex", "retrieve", "delete"])
         tok = self.tok()
         if k == "store_pid":
-            return store_object(rng.choice(["", " ", "a b", "x\ty", OTHER]), self.data_any())
+            return store_object(rng.choice(["", " ", "a b", "x\ty", OTHER, "p\r", "pq\r\n", "\x0cq", "a\x85b", "\u2028p"]), self.data_any())
         if k == "store_data":
             return store_object(rng.choice([self.pid(), None]), rng.choice(
                 [("bad", None), ("bad", 5), ("bad", b"bytes"), ("bad", ("stream", "text")), ("bad", ("stream", "raw")),
